@@ -1,6 +1,8 @@
 package main
 
 import (
+	rdebug "runtime/debug"
+	"runtime/pprof"
 	"flag"
 	"fmt"
 	"os"
@@ -38,52 +40,78 @@ func hasLambda(ts ...*Term) bool {
 	return false
 }
 
-func leavesOf(t *Term, memo map[int]map[int]bool) map[int]bool {
-	if m, ok := memo[t.id]; ok {
-		return m
+var leafCache = map[int][]int{}
+
+// leafSet: ids of the leaf symbols of t (cached per root; terms are immutable).
+func leafSet(t *Term) []int {
+	if ls, ok := leafCache[t.id]; ok {
+		return ls
 	}
-	m := map[int]bool{}
-	if t.leaf {
-		m[t.id] = true
-	}
-	for _, a := range t.args {
-		for k := range leavesOf(a, memo) {
-			m[k] = true
+	seen := map[int]bool{}
+	var out []int
+	var walk func(x *Term)
+	walk = func(x *Term) {
+		if seen[x.id] {
+			return
+		}
+		seen[x.id] = true
+		if x.leaf {
+			out = append(out, x.id)
+		}
+		for _, a := range x.args {
+			walk(a)
 		}
 	}
-	memo[t.id] = m
-	return m
+	walk(t)
+	leafCache[t.id] = out
+	return out
 }
 
 // relevant keeps the assumptions in the cone of influence of the goal.
-func relevant(assumes []*Term, goal *Term) []*Term {
-	memo := map[int]map[int]bool{}
-	syms := map[int]bool{}
-	for k := range leavesOf(goal, memo) {
-		syms[k] = true
-	}
+func relevant(assumes []*Term, goal *Term) []*Term { return relevantDepth(assumes, goal, 0) }
+
+// relevantDepth: the cone of influence cut after depth rounds (0: transitive
+// closure). A cut cone is a weaker set of hypotheses: unsat remains conclusive.
+func relevantDepth(assumes []*Term, goal *Term, depth int) []*Term {
+	byLeaf := map[int][]int{}
 	used := make([]bool, len(assumes))
-	for changed := true; changed; {
-		changed = false
-		for i, a := range assumes {
-			if used[i] {
-				continue
-			}
-			ls := leavesOf(a, memo)
-			hit := len(ls) == 0
-			for k := range ls {
-				if syms[k] {
-					hit = true
-					break
+	var work []int
+	for i, a := range assumes {
+		ls := leafSet(a)
+		if len(ls) == 0 {
+			used[i] = true
+			continue
+		}
+		for _, k := range ls {
+			byLeaf[k] = append(byLeaf[k], i)
+		}
+	}
+	syms := map[int]bool{}
+	for _, k := range leafSet(goal) {
+		if !syms[k] {
+			syms[k] = true
+			work = append(work, k)
+		}
+	}
+	for round := 1; len(work) > 0; round++ {
+		var next []int
+		for _, k := range work {
+			for _, i := range byLeaf[k] {
+				if used[i] {
+					continue
 				}
-			}
-			if hit {
 				used[i] = true
-				changed = true
-				for k := range ls {
-					syms[k] = true
+				for _, k2 := range leafSet(assumes[i]) {
+					if !syms[k2] {
+						syms[k2] = true
+						next = append(next, k2)
+					}
 				}
 			}
+		}
+		work = next
+		if depth > 0 && round >= depth {
+			break
 		}
 	}
 	var out []*Term
@@ -99,8 +127,32 @@ func relevant(assumes []*Term, goal *Term) []*Term {
 // are replaced by their ground instances (a weaker, quantifier-free VC: unsat
 // still proves the obligation, sat means nothing).
 func buildScript(assumes []*Term, o *Obligation, groundOnly bool) (string, []string, bool) {
+	return buildScriptD(assumes, o, groundOnly, 0)
+}
+
+func buildScriptD(assumes []*Term, o *Obligation, groundOnly bool, depth int) (string, []string, bool) {
 	target := And(o.PC, Not(o.Goal))
-	as := relevant(assumes[:o.NAssume], target)
+	as := relevantDepth(assumes[:o.NAssume], target, depth)
+	if depth > 0 && groundOnly {
+		// shallow pass: quantifier-free hypotheses of the cut cone and their instances
+		roots := append(append([]*Term(nil), as...), target)
+		insts := instantiate(roots, target)
+		var kept []*Term
+		for _, r := range append(roots, insts...) {
+			if !hasQuant(r) {
+				kept = append(kept, r)
+			}
+		}
+		if pushSel {
+			for i := range kept {
+				kept[i] = pushSelects(kept[i])
+			}
+		}
+		if fs := freshIn(kept); len(fs) > 0 {
+			kept = append(kept, App("distinct", SBool, append([]*Term{RefNil()}, fs...)...))
+		}
+		return ScriptDefs(kept, nil, nil), nil, hasLambda(kept...)
+	}
 	roots := append(append([]*Term(nil), as...), target)
 	insts := instantiate(roots, target)
 	if groundOnly {
@@ -123,9 +175,19 @@ func buildScript(assumes []*Term, o *Obligation, groundOnly bool) (string, []str
 		insts = gi
 	}
 	roots = append(roots, insts...)
+	if pushSel && groundOnly {
+		for i := range roots {
+			roots[i] = pushSelects(roots[i])
+		}
+	}
 	var probeTerms []*Term
 	for _, p := range o.Probes {
 		probeTerms = append(probeTerms, p.T)
+	}
+	// allocation symbols are pairwise distinct and non-nil (the term layer
+	// folds with this fact, so the solvers must be told)
+	if fs := freshIn(append(append([]*Term(nil), roots...), probeTerms...)); len(fs) > 0 {
+		roots = append(roots, App("distinct", SBool, append([]*Term{RefNil()}, fs...)...))
 	}
 	// probes must be defined in the script: add them as harmless roots
 	all := append(append([]*Term(nil), roots...), probeTerms...)
@@ -136,6 +198,90 @@ func buildScript(assumes []*Term, o *Obligation, groundOnly bool) (string, []str
 		probes = append(probes, fmt.Sprintf("?probe%d", i))
 	}
 	return script, probes, lam
+}
+
+var pushSel = os.Getenv("LNCVC_NOPUSHSEL") == ""
+var pushMemo = map[int]*Term{}
+var selPushMemo = map[[2]int]*Term{}
+
+// pushSelects rewrites reads of updated / merged arrays into case splits
+// (read-over-write done at the term level), so that the solvers see base
+// arrays only under select.
+func pushSelects(t *Term) *Term {
+	if r, ok := pushMemo[t.id]; ok {
+		return r
+	}
+	r := t
+	if len(t.args) > 0 {
+		args := make([]*Term, len(t.args))
+		changed := false
+		for i, a := range t.args {
+			args[i] = pushSelects(a)
+			if args[i] != a {
+				changed = true
+			}
+		}
+		if t.op == "select" {
+			r = selPush(args[0], args[1])
+		} else if changed {
+			r = rebuildTerm(t, args)
+		}
+	}
+	pushMemo[t.id] = r
+	return r
+}
+
+func selPush(a, i *Term) *Term {
+	key := [2]int{a.id, i.id}
+	if r, ok := selPushMemo[key]; ok {
+		return r
+	}
+	var r *Term
+	switch a.op {
+	case "store":
+		j, v := a.args[1], a.args[2]
+		switch {
+		case i == j:
+			r = v
+		case knownDistinct(i, j):
+			r = selPush(a.args[0], i)
+		default:
+			r = Ite(Eq(i, j), v, selPush(a.args[0], i))
+		}
+	case "ite":
+		r = Ite(a.args[0], selPush(a.args[1], i), selPush(a.args[2], i))
+	case "constarr":
+		r = a.args[0]
+	case "copyarr":
+		r = SelectA(a, i)
+	default:
+		r = Select(a, i)
+	}
+	selPushMemo[key] = r
+	return r
+}
+
+func freshIn(ts []*Term) []*Term {
+	seen := map[int]bool{}
+	var out []*Term
+	var walk func(t *Term)
+	walk = func(t *Term) {
+		if seen[t.id] {
+			return
+		}
+		seen[t.id] = true
+		if freshSyms[t.id] {
+			out = append(out, t)
+		}
+		for _, a := range t.args {
+			walk(a)
+		}
+	}
+	for _, t := range ts {
+		walk(t)
+	}
+	sort.Slice(out, func(i, j int) bool { return out[i].id < out[j].id })
+	return out
 }
 
 // scriptWithProbes renders roots as assertions and probe terms as named
@@ -172,6 +318,12 @@ func main() {
 	replayF := flag.String("replay", "", "re-run the replay test stored in this replay file")
 	noReplay := flag.Bool("no-replay", false, "do not run replay tests")
 	flag.Parse()
+	rdebug.SetGCPercent(400)
+	if pf := os.Getenv("LNCVC_PROF"); pf != "" {
+		f, _ := os.Create(pf)
+		pprof.StartCPUProfile(f)
+		defer pprof.StopCPUProfile()
+	}
 	if *replayF != "" {
 		os.Exit(rerunReplay(*replayF))
 	}
@@ -220,9 +372,9 @@ func main() {
 		cts = append(cts, ct)
 	}
 	sort.Slice(cts, func(i, j int) bool { return contractName(cts[i]) < contractName(cts[j]) })
-	timeout := 20
+	timeout := 60
 	if *tier == "thorough" {
-		timeout = 120
+		timeout = 300
 	}
 	var results []*FuncResult
 	for _, ct := range cts {
@@ -251,13 +403,17 @@ func main() {
 		}
 	}
 	var wg sync.WaitGroup
-	sem := make(chan struct{}, runtime.NumCPU())
+	sem := make(chan struct{}, 2*runtime.NumCPU())
 	var mu sync.Mutex
 	scripts := map[*Obligation]string{}
 	for _, j := range jobs {
 		mu.Lock()
 		script, probes, lam := buildScript(j.fr.Assumes, j.o, false)
 		gscript, _, glam := buildScript(j.fr.Assumes, j.o, true)
+		sscript, slam := "", false
+		if j.o.Kind != "cover" && j.o.Kind != "vacuity" && os.Getenv("LNCVC_NOSHALLOW") == "" {
+			sscript, _, slam = buildScriptD(j.fr.Assumes, j.o, true, 2)
+		}
 		scripts[j.o] = script
 		if *dump != "" && gscript != "" {
 			os.MkdirAll(*dump, 0o755)
@@ -266,7 +422,7 @@ func main() {
 		mu.Unlock()
 		wg.Add(1)
 		sem <- struct{}{}
-		go func(j solveJob, script, gscript string, probes []string, lam, glam bool) {
+		go func(j solveJob, script, gscript, sscript string, probes []string, lam, glam, slam bool) {
 			defer wg.Done()
 			defer func() { <-sem }()
 			j.o.Lambda = lam
@@ -288,12 +444,18 @@ func main() {
 				}
 				return
 			}
+			if sscript != "" {
+				// the two-step cone of influence, quantifier-free: unsat is conclusive
+				r := Solve(sscript, nil, 6, slam)
+				if r.Status == "unsat" {
+					r.Solver += " (shallow cone)"
+					j.o.Res = r
+					return
+				}
+			}
 			if gscript != "" {
 				// quantifier-free approximation first: unsat is conclusive
-				gt := 30
-				if timeout > 20 {
-					gt = 60
-				}
+				gt := timeout
 				r := Solve(gscript, nil, gt, glam)
 				if r.Status == "unsat" {
 					r.Solver += " (ground instances)"
@@ -302,13 +464,14 @@ func main() {
 				}
 			}
 			j.o.Res = Solve(script, probes, timeout, lam)
-		}(j, script, gscript, probes, lam, glam)
+		}(j, script, gscript, sscript, probes, lam, glam, slam)
 	}
 	wg.Wait()
 	rep := &Report{Ctx: ctx, Results: results, Prop: *prop, Tier: *tier, Verbose: *verbose, Dump: *dump, Scripts: scripts,
 		Verif: *outDir, LoadS: loadS, GenS: genS, Start: start, NoEvidence: *noEvidence, NoReplay: *noReplay}
 	code := rep.Finish()
 	cleanupScratch()
+	pprof.StopCPUProfile()
 	os.Exit(code)
 }
 
@@ -327,6 +490,13 @@ func contains(xs []string, x string) bool {
 // ground part of the VC (two rounds, so that chains of frame axioms connect),
 // plus the skolem constants of the goal. The quantified formulas stay in place;
 // the instances only help the solvers.
+type trigInfo struct {
+	triggers map[int]bool
+	pats     map[int][]*Term
+}
+
+var trigCache = map[int]trigInfo{}
+
 func instantiate(roots []*Term, target *Term) []*Term {
 	type qinfo struct {
 		q        *Term
@@ -336,32 +506,41 @@ func instantiate(roots []*Term, target *Term) []*Term {
 	}
 	var qs []qinfo
 	for _, r := range roots {
+		if !hasQuant(r) {
+			continue
+		}
 		seen := map[int]bool{}
 		var find func(t *Term)
 		find = func(t *Term) {
-			if seen[t.id] {
+			if seen[t.id] || !hasQuant(t) {
 				return
 			}
 			seen[t.id] = true
 			if t.op == "forall" && instQuant[t.id] {
-				qi := qinfo{q: t, root: r, triggers: map[int]bool{}, pats: map[int][]*Term{}}
-				bv := t.args[0]
-				s2 := map[int]bool{}
-				var trig func(x *Term)
-				trig = func(x *Term) {
-					if s2[x.id] {
-						return
+				qi := qinfo{q: t, root: r}
+				if c, ok := trigCache[t.id]; ok {
+					qi.triggers, qi.pats = c.triggers, c.pats
+				} else {
+					qi.triggers, qi.pats = map[int]bool{}, map[int][]*Term{}
+					bv := t.args[0]
+					s2 := map[int]bool{}
+					var trig func(x *Term)
+					trig = func(x *Term) {
+						if s2[x.id] {
+							return
+						}
+						s2[x.id] = true
+						if x.op == "select" && mentions(x.args[1], bv) {
+							qi.triggers[x.args[0].id] = true
+							qi.pats[x.args[0].id] = append(qi.pats[x.args[0].id], x.args[1])
+						}
+						for _, a := range x.args {
+							trig(a)
+						}
 					}
-					s2[x.id] = true
-					if x.op == "select" && mentions(x.args[1], bv) {
-						qi.triggers[x.args[0].id] = true
-						qi.pats[x.args[0].id] = append(qi.pats[x.args[0].id], x.args[1])
-					}
-					for _, a := range x.args {
-						trig(a)
-					}
+					trig(t.args[1])
+					trigCache[t.id] = trigInfo{qi.triggers, qi.pats}
 				}
-				trig(t.args[1])
 				qs = append(qs, qi)
 				return
 			}
@@ -489,12 +668,18 @@ func instantiate(roots []*Term, target *Term) []*Term {
 	return out
 }
 
-func mentions(t, v *Term) bool {
+func mentions(t, v *Term) bool { return mentionsM(t, v, map[int]bool{}) }
+
+func mentionsM(t, v *Term, seen map[int]bool) bool {
 	if t == v {
 		return true
 	}
+	if seen[t.id] {
+		return false
+	}
+	seen[t.id] = true
 	for _, a := range t.args {
-		if mentions(a, v) {
+		if mentionsM(a, v, seen) {
 			return true
 		}
 	}
